@@ -446,8 +446,14 @@ func c17KeyValidated(w *World, f *ssa.Function) string {
 				}
 				if c.Call.IsInvoke() && nm(c.Call.Method) == "Validate" && len(c.Call.Args) == 3 {
 					sl, isSl := c.Call.Args[2].(*ssa.Slice)
-					lk, isLk := c.Call.Value.(*ssa.Lookup)
-					if isSl && isLk && loadedFieldName(lk.X) == "children" {
+					// the receiver is a child looked up by name (possibly by a helper)
+					ros := sym.Origins(c.Call.Value, ctx, 0)
+					isLk := len(ros) > 0
+					for _, o := range ros {
+						lk, ok := o.v.(*ssa.Lookup)
+						isLk = isLk && ok && loadedFieldName(lk.X) == "children"
+					}
+					if isSl && isLk {
 						if lits := sliceLiteral(sl); len(lits) == 1 && isHead(lits[0], ctx) {
 							keyCall = c
 						}
